@@ -242,6 +242,51 @@ CHECKS = {
         "order; string-valued variables are not generated.",
         "DESIGN.md 3/C13",
     ),
+    "C14": (
+        "exploration",
+        "exhaustive enumeration of a finite dataset x engine x name x operation lattice on the real code",
+        "Datasets with 0-4 dimensions, five variable dtypes, three coordinate "
+        "dtypes, NaN patterns and attribute types are saved and loaded with "
+        "both available engines under names with / without extension and in a "
+        "dotted directory, eagerly and lazily, through save_ds/load_ds, "
+        "save_merge_ds and Harvester save / new-session load / delete; the "
+        "loaded dataset must equal the original up to the documented attribute "
+        "rewriting and the directory must contain exactly the expected file.",
+        "netCDF4 / zarr are not importable here; equality is checked on values, "
+        "dtype kind, dims, coordinates and attributes.",
+        "DESIGN.md 3/C14",
+    ),
+    "C19": (
+        "model_checking",
+        "explicit-state depth-first search over the Welford recurrence's state with an exact rational oracle in every state; exhaustive enumeration of the stopping rule",
+        "Every update sequence up to depth 6 / 8 over five-value alphabets in "
+        "five offset / spread regimes (up to 1e9 offset, 1e-3 spread) is fed to "
+        "the real RunningStatistics; in every state count, mean, var, std, err "
+        "and rel_err are compared with Fraction arithmetic on the actual float "
+        "inputs under the Chan-Golub-LeVeque bound, and the same values re-fed "
+        "through update_from_it in chunks must give the bit-identical state. "
+        "RunningCovariance and RunningCovarianceMatrix (2-4 series) likewise. "
+        "estimate_from_repeats is enumerated over all (rtol, tol_scale, "
+        "min_samples, max_samples) and every deterministic sample sequence.",
+        "Depth 8, not 500 samples; accuracy bound as stated in the evidence "
+        "assumptions; borderline convergence margins (< 1e-12) skipped and "
+        "counted.",
+        "DESIGN.md 3/C19",
+    ),
+    "C20": (
+        "exploration",
+        "exhaustive enumeration of a decimal lattice dense around every rounding boundary, with an independent reader as oracle",
+        "About 2.4 million (quick) / 30 million (thorough) (x, err) pairs - all "
+        "three-digit error mantissas plus 9.950..9.999, sixty boundary value "
+        "mantissas, both signs, zero, value exponents -300, -12..12, 300 and "
+        "error/value offsets -12..12 - are formatted by the real function and "
+        "read back by an independent regex + Decimal reader that demands the "
+        "error to two significant digits and the value rounded to the same last "
+        "digit.",
+        "A bounded lattice, not all floats; ties accepted either way (relative "
+        "slack 1e-9).",
+        "DESIGN.md 3/C20",
+    ),
 }
 
 NOT_BUILT = "check not built yet in this session (design in DESIGN.md section 3)"
